@@ -180,6 +180,20 @@ def coq_check_property_files(props, jobs=8):
     return {k: tuple(v) for k, v in out.items()}, log
 
 
+def add_property_files(info, files):
+    """further files of theorems that belong to the property of this run: their obligations are added to info (one parallel make)"""
+    res, plog = coq_check_property_files(list(files))
+    closed, axioms = parse_assumptions(plog)
+    info["closed"] += closed
+    info["axioms"] = info["axioms"] + axioms
+    for pf in files:
+        pok, names = res[pf]
+        info["prop_ok"] = info["prop_ok"] and pok
+        info["theorems"] = info["theorems"] + names
+        if not pok:
+            info["prop_log"] = info.get("prop_log", "") + ("Properties/%s.v did not compile: " % pf) + plog[-2500:]
+
+
 def parse_assumptions(log):
     """Split the output of Print Assumptions commands."""
     closed = len(re.findall(r"Closed under the global context", log))
